@@ -988,7 +988,13 @@ class Terms(object):
         if c is not None:
             return self._var(c, node, env)
         if isinstance(e, ast.Attribute):
-            return ("attr", T(e.value, node, env), e.attr)
+            b_ = T(e.value, node, env)
+            # slice(a, b).start / .stop are a / b
+            if e.attr in ("start", "stop") and b_[0] == "call" and \
+                    b_[1] == ("global", "slice") and len(b_[2]) == 2 and \
+                    not b_[3]:
+                return b_[2][0 if e.attr == "start" else 1]
+            return ("attr", b_, e.attr)
         if isinstance(e, ast.NamedExpr):
             return T(e.value, node, env)
         if isinstance(e, (ast.Tuple, ast.List, ast.Set)):
@@ -1236,6 +1242,14 @@ class Terms(object):
                 isinstance(args[1][1], str):
             return ("attr", args[0], args[1][1])
         ft = T(f, node, env)
+        # a bound method kept in a variable (g = d.get; g(k, 0))
+        if not isinstance(f, ast.Attribute) and ft[0] == "attr":
+            if ft[2] == "get" and len(args) in (1, 2) and not kws:
+                if len(args) == 2 and args[1] == ("const", None):
+                    args = args[:1]
+                return ("get", ft[1]) + args
+            if ft[2] in _ITEMS and not args and not kws:
+                return (_ITEMS[ft[2]], ft[1])
         # S.pack(...) etc. on a module-level S = struct.Struct(<format>) reads
         # as struct.pack(<format>, ...)
         if ft[0] == "attr" and ft[1][0] == "global" and ft[2] in (
@@ -2302,4 +2316,36 @@ def decide_ites(t, facts):
             return out[3]
         if out[3] == ("const", b""):
             return out[2]
+    return out
+
+
+def fold_consts(t, evaluate):
+    """``t`` with every closed sub-term (no parameter, loop element, merged
+    or call-site dependent part) that ``evaluate(ast expression)`` can turn
+    into an int / str / bytes / bool replaced by that constant.  ``evaluate``
+    may raise AnalysisError for what it cannot fold."""
+    if not isinstance(t, tuple) or not t or t[0] == "const":
+        return t
+    out = tuple(fold_consts(x, evaluate) if isinstance(x, tuple) else x
+                for x in t)
+    if out[0] in ("param", "elem", "index", "mu", "phi", "rec", "opaque",
+                  "new", "callv", "attrv", "lparam", "local"):
+        return out
+    if any(st[0] in ("param", "elem", "index", "mu", "phi", "rec", "opaque",
+                     "new", "callv", "attrv", "lparam", "local")
+           for st in subterms(out)):
+        return out
+    if out[0] not in ("binop", "unop", "call", "attr", "global", "item"):
+        return out
+    try:
+        e = reify(out)
+        for n in ast.walk(e):
+            for c in ast.iter_child_nodes(n):
+                c._parent = n
+        ast.fix_missing_locations(e)
+        v = evaluate(e)
+    except Exception:
+        return out
+    if isinstance(v, (int, str, bytes)) or v is None:
+        return ("const", v)
     return out
